@@ -181,6 +181,19 @@ def oracle(case):
 	got = sorted(canon(e) for e in els)
 	if singles != got:
 		return {'what': 'returned elements are not exactly the listed elements (each once, with parameters)', 'name': name, 'value': value.decode('latin-1'), 'finding': None}
+	# an element whose weight is changed afterwards has the new weight (and is ordered by it)
+	if els:
+		try:
+			again = impl_elements(name, value)
+			e0 = again[0]
+			e0.params['q'] = '0.001'
+			if abs((e0.quality or 0) - 0.001) > 1e-9:
+				return {'what': 'after params["q"] = "0.001" the element has quality %r' % (e0.quality,), 'name': name, 'value': value.decode('latin-1'), 'finding': None}
+			resorted = Element.sorted(again)
+			if len(again) > 1 and all((e.quality or 0) > 0.001 for e in again[1:]) and resorted[-1] is not e0:
+				return {'what': 'after lowering its weight to 0.001 the element is not sorted last', 'name': name, 'value': value.decode('latin-1'), 'finding': None}
+		except InvalidHeader:
+			pass
 	# the same elements sent as several field lines, the name spelled differently each time
 	parts = Element.split(value)
 	if len(parts) >= 2:
